@@ -18,22 +18,45 @@ def dig(x):
     return "%s%s:%s" % (a.dtype.kind, a.shape, hashlib.sha1(np.round(a.astype(np.float64), 7).tobytes()).hexdigest()[:12])
 
 
+def force_uuid_stream(kind):
+    """every identifier einx draws (uuid.uuid4) comes from an adversarial but collision-free stream: all values are pairwise
+    distinct, yet share their leading 96 bits ("prefix") or their trailing 96 bits ("suffix")"""
+    import uuid
+    counter = [0]
+    base = 0x1F2E3D4C5B6A79880716A5B4
+
+    def uuid4():
+        counter[0] += 1
+        if kind == "prefix":
+            return uuid.UUID(int=(base << 32) | counter[0])
+        return uuid.UUID(int=(counter[0] << 96) | base)
+    uuid.uuid4 = uuid4
+
+
 def main():
+    stream = os.environ.get("VERIF_UUID_STREAM", "")
+    if stream:
+        force_uuid_stream(stream)
     import einx
     items = json.load(open(sys.argv[1]))
-    seed = int(os.environ.get("PYTHONHASHSEED", "0"))
+    seed = int(os.environ.get("VERIF_OBS_ID", os.environ.get("PYTHONHASHSEED", "0")))
     out = []
     for it in items:
-        case, op, cid = it["case"], it["op"], it["cid"]
+        op, cid = it["op"], it["cid"]
         rng = np.random.default_rng(it["seed"])
-        ins = DC.probe_inputs(case, op, rng)
-        if case["fam"] == "update_at" and it.get("dupcoords"):
-            ins[1] = np.zeros_like(ins[1])
-        kw = {"shift": 1} if op == "roll" else {}
-        sizes = {n: int(v) for n, v in case["L"].items() if n in set(case["desc"])}
-        desc = DC.desc_of(case)
-        if it.get("implicit"):
-            desc = ", ".join("".join(t) for t in case["intoks"])       # no '->': the output is chosen by the operation's rule
+        if "raw" in it:
+            desc, sizes, kw = it["raw"]["desc"], it["raw"].get("sizes", {}), {}
+            ins = [rng.permutation(int(np.prod(sh)) if sh else 1).reshape(sh).astype(np.int64) for sh in it["raw"]["shapes"]]
+        else:
+            case = it["case"]
+            ins = DC.probe_inputs(case, op, rng)
+            if case["fam"] == "update_at" and it.get("dupcoords"):
+                ins[1] = np.zeros_like(ins[1])
+            kw = {"shift": 1} if op == "roll" else {}
+            sizes = {n: int(v) for n, v in case["L"].items() if n in set(case["desc"])}
+            desc = DC.desc_of(case)
+            if it.get("implicit"):
+                desc = ", ".join("".join(t) for t in case["intoks"])       # no '->': the output is chosen by the operation's rule
         for rep in (1, 2, 3):
             with warnings.catch_warnings():
                 warnings.simplefilter("ignore")
